@@ -64,6 +64,8 @@ type xOp struct {
 	LegacyEnv bool   `json:"legacyenv,omitempty"` // ... set through the environment instead
 	Cli     string   `json:"cli,omitempty"`       // extra command line argument
 	// do
+	Args  []string `json:"args,omitempty"`  // flags: several --name=value arguments on one command line
+	Late  bool     `json:"late,omitempty"`  // do: the client is built while StrictMode is still false (real start-up order), strict mode is switched on afterwards
 	Ctor  string   `json:"ctor,omitempty"`  // New | NewWithCache | NewWithTLSConfig
 	First string   `json:"first,omitempty"` // first URL (symbolic ports 1001 https, 1002 https, 1003 http)
 	Locs  []string `json:"locs,omitempty"`  // redirect targets, hop by hop
@@ -319,12 +321,41 @@ func xExec(t *testing.T, op xOp, sock **xSock) (line string) {
 			return "flag ok" // the flag itself was accepted; the named file does not exist
 		}
 		return "flag other:" + err.Error()
+	case "flags":
+		cfg := core.NewServerConfig()
+		flags := serverConfigFlags()
+		var args []string
+		for _, a := range op.Args {
+			args = append(args, "--"+a)
+		}
+		if err := flags.Parse(args); err != nil {
+			return "flags parse-error"
+		}
+		err := cfg.Load(flags)
+		switch {
+		case err == nil:
+			return "flags ok"
+		case strings.Contains(err.Error(), "is a secret"):
+			return "flags refuse:cli-secret"
+		}
+		return "flags other:" + err.Error()
 	case "load", "sys":
 		dir, err := os.MkdirTemp(os.Getenv("VERIF_OUT"), "node")
 		if err != nil {
 			panic(err)
 		}
 		defer os.RemoveAll(dir)
+		// a fresh process: strict mode of the HTTP clients is off until the HTTP engine is configured (last);
+		// clients that engines build before that moment are represented by `early`
+		if *sock == nil {
+			*sock = xNewSock()
+		}
+		restore := (*sock).install()
+		defer restore()
+		oldStrict := client.StrictMode
+		client.StrictMode = false
+		defer func() { client.StrictMode = oldStrict }()
+		early := client.New(5 * time.Second)
 		system, err := xLoad(op, dir)
 		if err != nil {
 			return op.Op + " refuse:" + xStartErr(err)
@@ -337,10 +368,31 @@ func xExec(t *testing.T, op xOp, sock **xSock) (line string) {
 			return "sys refuse:" + xStartErr(err)
 		}
 		// per-action probes on the configured node
-		dummy, remote := "?", "?"
+		dummy, remote, iamHTTP, iamIP := "?", "?", "?", "?"
+		sk := *sock
+		iamProbe := func(a *auth.Auth, endpoint string) string {
+			sk.mu.Lock()
+			sk.locs, sk.reqs = nil, nil
+			sk.mu.Unlock()
+			_, err := a.IAMClient().ClientMetadata(context.Background(), endpoint)
+			sk.mu.Lock()
+			sent := len(sk.reqs) > 0
+			sk.mu.Unlock()
+			switch {
+			case sent:
+				return "sent"
+			case err != nil && (strings.Contains(err.Error(), "scheme must be") || strings.Contains(err.Error(), "hostname is IP") || strings.Contains(err.Error(), "reserved")):
+				return "refused-endpoint"
+			case err != nil && strings.Contains(err.Error(), "request is not over HTTPS"):
+				return "refused-client"
+			}
+			return fmt.Sprintf("other:%v", err)
+		}
 		system.VisitEngines(func(e core.Engine) {
 			switch v := e.(type) {
 			case *auth.Auth:
+				iamHTTP = iamProbe(v, "http://c.verif.test:1003/meta")
+				iamIP = iamProbe(v, "https://127.0.0.1:1001/meta")
 				_, err := v.ContractNotary().CreateSigningSession(services.CreateSessionRequest{SigningMeans: "dummy", Message: "not a contract"})
 				if err != nil && strings.Contains(err.Error(), "unknown signing means") {
 					dummy = "absent"
@@ -356,7 +408,23 @@ func xExec(t *testing.T, op xOp, sock **xSock) (line string) {
 				}
 			}
 		})
-		return fmt.Sprintf("sys ok dummy=%s remotectx=%s clientstrict=%v", dummy, remote, client.StrictMode)
+		// the client built before the node was configured, now asked to follow https -> http
+		sk.mu.Lock()
+		sk.locs, sk.reqs = []string{"http://c.verif.test:1003/hop0"}, nil
+		sk.mu.Unlock()
+		earlyOut := "followed"
+		req, _ := http.NewRequest(http.MethodGet, "https://a.verif.test:1001/start", nil)
+		if _, err := early.Do(req); err != nil {
+			earlyOut = "refused"
+		}
+		sk.mu.Lock()
+		for _, r := range sk.reqs {
+			if strings.HasPrefix(r, "http://") {
+				earlyOut = "followed"
+			}
+		}
+		sk.mu.Unlock()
+		return fmt.Sprintf("sys ok dummy=%s remotectx=%s clientstrict=%v earlyclient=%s iamhttp=%s iamip=%s", dummy, remote, client.StrictMode, earlyOut, iamHTTP, iamIP)
 	case "do":
 		if *sock == nil {
 			*sock = xNewSock()
@@ -369,6 +437,9 @@ func xExec(t *testing.T, op xOp, sock **xSock) (line string) {
 		defer restore()
 		old := client.StrictMode
 		client.StrictMode = op.Strict
+		if op.Late {
+			client.StrictMode = false
+		}
 		defer func() { client.StrictMode = old }()
 		var c *client.StrictHTTPClient
 		switch op.Ctor {
@@ -379,6 +450,7 @@ func xExec(t *testing.T, op xOp, sock **xSock) (line string) {
 		default:
 			c = client.NewWithTLSConfig(5*time.Second, s.tlsConfig())
 		}
+		client.StrictMode = op.Strict // from here on the node is configured
 		req, err := http.NewRequest(http.MethodGet, op.First, nil)
 		if err != nil {
 			return "do bad-request"
@@ -475,6 +547,49 @@ func xGenerate(seed int64, thorough bool) []xOp {
 	for _, name := range names {
 		ops = append(ops, xOp{Op: "flag", Flag: name, Value: xFlagValue(fs.Lookup(name)), Strict: true, Tag: "flag"})
 	}
+	// 2b. every secret flag COMBINED with other flags that sort before and after it (pflag visits flags in sorted order)
+	var secrets, plain []string
+	for _, name := range names {
+		if strings.HasSuffix(name, "token") || strings.HasSuffix(name, "password") {
+			secrets = append(secrets, name)
+		} else if name != "configfile" && name != "cpuprofile" {
+			plain = append(plain, name)
+		}
+	}
+	arg := func(name string) string { return name + "=" + xFlagValue(fs.Lookup(name)) }
+	for _, sname := range secrets {
+		var before, after []string
+		for _, p := range plain {
+			if p < sname {
+				before = append(before, p)
+			} else {
+				after = append(after, p)
+			}
+		}
+		combos := [][]string{{arg(sname), arg(before[0])}, {arg(sname), arg(after[len(after)-1])}, {arg(before[len(before)-1]), arg(sname), arg(after[0])},
+			{arg(after[0]), arg(sname)}, {arg("url"), arg(sname), arg("verbosity")}}
+		for k := 0; k < 6; k++ {
+			c := []string{arg(sname)}
+			for n := 1 + r.Intn(4); n > 0; n-- {
+				c = append(c, arg(plain[r.Intn(len(plain))]))
+			}
+			if k%2 == 0 {
+				c = append(c, arg(secrets[r.Intn(len(secrets))]))
+			}
+			r.Shuffle(len(c), func(i, j int) { c[i], c[j] = c[j], c[i] })
+			combos = append(combos, c)
+		}
+		for _, c := range combos {
+			ops = append(ops, xOp{Op: "flags", Args: c, Strict: true, Tag: "flags-combined"})
+		}
+	}
+	for k := 0; k < 20; k++ { // and combinations without any secret
+		var c []string
+		for n := 1 + r.Intn(4); n > 0; n-- {
+			c = append(c, arg(plain[r.Intn(len(plain))]))
+		}
+		ops = append(ops, xOp{Op: "flags", Args: c, Strict: true, Tag: "flags-plain"})
+	}
 	// 3. moved keys: file and environment, both modes (exhaustive)
 	base := xOp{URL: "https://nuts.nl", Methods: []string{"web"}, Crypto: "fs", SQL: true, Irma: "pbdf"}
 	for _, k := range []string{"network.certfile", "network.certkeyfile", "network.truststorefile", ""} {
@@ -521,7 +636,7 @@ func xGenerate(seed int64, thorough bool) []xOp {
 		nd = 1500
 	}
 	for i := 0; i < nd; i++ {
-		op := xOp{Op: "do", Ctor: []string{"New", "NewWithCache", "NewWithTLSConfig"}[i%3], Strict: r.Intn(3) != 0, First: origins[r.Intn(3)] + "/start", Tag: "do"}
+		op := xOp{Op: "do", Ctor: []string{"New", "NewWithCache", "NewWithTLSConfig"}[i%3], Strict: r.Intn(3) != 0, Late: i%2 == 1, First: origins[r.Intn(3)] + "/start", Tag: "do"}
 		for r.Intn(2) == 0 && len(op.Locs) < 12 {
 			op.Locs = append(op.Locs, origins[r.Intn(3)]+"/hop"+strconv.Itoa(len(op.Locs)))
 		}
